@@ -44,6 +44,9 @@ const (
 	opSemAcq
 	opWaitCtx
 	opTimer
+	opTryLock // try operations never block but are scheduling points (another thread may get in first)
+	opTryRLock
+	opTrySem
 	// non-point requests
 	opUnlock
 	opWUnlock
@@ -59,7 +62,7 @@ const (
 
 var opNames = map[opKind]string{opStart: "start", opAccess: "access", opLock: "lock", opRLock: "rlock", opWAnnounce: "wlock-announce",
 	opWAcquire: "wlock-acquire", opWGWait: "wg-wait", opCondWait: "cond-wait", opCondWake: "cond-wake", opSemAcq: "sem-acquire",
-	opWaitCtx: "wait-cancel", opTimer: "timer-fire", opExit: "exit"}
+	opWaitCtx: "wait-cancel", opTimer: "timer-fire", opTryLock: "trylock", opTryRLock: "tryrlock", opTrySem: "sem-tryacquire", opExit: "exit"}
 
 type req struct {
 	t     *thread
@@ -222,7 +225,7 @@ func invariant(ok bool, msg string) {
 func (s *sched) enabled(t *thread) bool {
 	r := &t.pend
 	switch r.op {
-	case opStart, opAccess, opCondWait, opTimer:
+	case opStart, opAccess, opCondWait, opTimer, opTryLock, opTryRLock, opTrySem:
 		return true
 	case opLock:
 		return s.obj(r.obj).held == nil
@@ -310,6 +313,29 @@ func (s *sched) perform(t *thread) {
 		t.h = mix(t.h, 2, s.nm(o, t), o.rel, o.racc)
 		o.wpending = nil
 		o.held = t
+	case opTryLock:
+		o := s.obj(r.obj)
+		t.granted = o.held == nil && o.wpending == nil && o.readers == 0
+		t.h = mix(t.h, 26, s.nm(o, t), o.rel, o.racc)
+		if t.granted {
+			o.held = t
+		}
+	case opTryRLock:
+		o := s.obj(r.obj)
+		t.granted = o.held == nil && o.wpending == nil
+		t.h = mix(t.h, 27, s.nm(o, t), o.rel)
+		if t.granted {
+			o.readers++
+		}
+	case opTrySem:
+		o := s.obj(r.obj)
+		o.size = r.size
+		t.granted = o.count+r.n <= o.size
+		t.h = mix(t.h, 28, s.nm(o, t), o.rel, uint64(r.n))
+		o.rel = mix(t.h)
+		if t.granted {
+			o.count += r.n
+		}
 	case opSemAcq:
 		o := s.obj(r.obj)
 		t.h = mix(t.h, 12, s.nm(o, t), o.rel, uint64(r.n))
@@ -743,7 +769,12 @@ func (m *Mutex) TryLock() bool {
 	if current() == nil {
 		return m.real.TryLock()
 	}
-	panic("zvsync: TryLock is not modelled")
+	call(req{op: opTryLock, obj: unsafe.Pointer(m)})
+	if grantedOf() {
+		raceAcquire(unsafe.Pointer(&m.pad))
+		return true
+	}
+	return false
 }
 
 func (m *Mutex) Unlock() {
@@ -796,6 +827,31 @@ func (m *RWMutex) RUnlock() {
 	}
 	raceReleaseMerge(unsafe.Pointer(&m.wsem))
 	call(req{op: opRUnlock, obj: unsafe.Pointer(m)})
+}
+
+func (m *RWMutex) TryLock() bool {
+	if current() == nil {
+		return m.real.TryLock()
+	}
+	call(req{op: opTryLock, obj: unsafe.Pointer(m)})
+	if grantedOf() {
+		raceAcquire(unsafe.Pointer(&m.rsem))
+		raceAcquire(unsafe.Pointer(&m.wsem))
+		return true
+	}
+	return false
+}
+
+func (m *RWMutex) TryRLock() bool {
+	if current() == nil {
+		return m.real.TryRLock()
+	}
+	call(req{op: opTryRLock, obj: unsafe.Pointer(m)})
+	if grantedOf() {
+		raceAcquire(unsafe.Pointer(&m.rsem))
+		return true
+	}
+	return false
 }
 
 func (m *RWMutex) RLocker() Locker { return (*rlocker)(m) }
@@ -931,7 +987,12 @@ func (w *Weighted) TryAcquire(n int64) bool {
 		}
 		return false
 	}
-	panic("zvsync: TryAcquire is not modelled")
+	call(req{op: opTrySem, obj: unsafe.Pointer(w), n: int(n), size: int(w.size)})
+	if grantedOf() {
+		raceAcquire(unsafe.Pointer(&w.pad))
+		return true
+	}
+	return false
 }
 
 func (w *Weighted) Release(n int64) {
